@@ -66,7 +66,8 @@ package raft
 //@   modifies rpcN, rpcOK, rpcLastSvc, rpcLastMethod, rpcLastArg
 
 //@ func (cc *Consensus) commit
-//@   property C01
+//@   property C01 C18
+//@   opts own
 //@   requires cc.config.CommitRetries >= 0
 //@   ensures [ack-means-committed] err == nil ==> commitOK > old(commitOK) || (rpcOK > old(rpcOK) && rpcLastSvc == "Consensus" && rpcLastMethod == rpcOp && rpcLastArg == redirectArg)
 //@   loop 1 (for i <= cc.config.CommitRetries)
@@ -116,7 +117,8 @@ package raft
 
 // nil only after leader-side success or a successful redirect
 //@ func (cc *Consensus) AddPeer
-//@   property C17
+//@   property C17 C18
+//@   opts own
 //@   requires cc.config.CommitRetries >= 0
 //@   ensures err == nil ==> (rpcOK > old(rpcOK) && rpcLastMethod == "AddPeer") || raftAddOK > old(raftAddOK)
 //@   loop 1 (for i <= cc.config.CommitRetries)
@@ -124,7 +126,8 @@ package raft
 //@   modifies rpcN, rpcOK, rpcLastSvc, rpcLastMethod, rpcLastArg, raftAddOK, addVoterN
 
 //@ func (cc *Consensus) RmPeer
-//@   property C17
+//@   property C17 C18
+//@   opts own
 //@   requires cc.config.CommitRetries >= 0
 //@   ensures err == nil ==> (rpcOK > old(rpcOK) && rpcLastMethod == "RmPeer") || raftRmOK > old(raftRmOK)
 //@   loop 1 (for i <= cc.config.CommitRetries)
@@ -374,3 +377,28 @@ package raft
 //@   at_call CleanupRaft assert [only-when-shut-down] cc.shutdown && cfg == cc.config
 //@   ensures [running-component-refuses] !cc.shutdown ==> err != nil && fs == old(fs) && fsContent == old(fsContent)
 //@   modifies fs, fsContent, heap(dataBackupHelper)
+
+// ---- C14: "saving it as a Raft snapshot and then reading it offline": the new snapshot is written into the same
+// data folder that was looked at for an existing one - so that it continues from the newest snapshot there (higher
+// index, same term: it is the one read back) and the old data is backed up first - and what is encoded is the state
+// that was handed in; a failure of any step is returned ----
+//@ extern hraft.NewFileSnapshotStoreWithLogger(base, retain, logger)
+//@   modifies nothing
+//@ ghost var encodeOK int
+//@ extern p2praft.EncodeSnapshot(st, w)
+//@   counts encodeOK when err == nil
+//@   modifies nothing
+//@ func makeDataFolder
+//@   opts trusted
+//@   modifies nothing
+//@ func makeServerConf
+//@   opts trusted
+//@   modifies nothing
+//@ func SnapshotSave
+//@   property C14
+//@   requires cfg != nil && cfg.BackupsRotate >= 1 && backupNamesDistinct()
+//@   at_call latestSnapshot assert [looks-where-it-writes] raftDataFolder == dataFolder
+//@   at_call hraft.NewFileSnapshotStoreWithLogger assert [writes-where-it-looked] base == dataFolder
+//@   at_call p2praft.EncodeSnapshot assert [encodes-the-given-state] same(raw_st, newState)
+//@   ensures [success-means-encoded] err == nil ==> encodeOK == old(encodeOK) + 1
+//@   modifies *
